@@ -118,6 +118,22 @@ MUTANTS = [
     ("harvest-cases-labelled-by-runner-signature", "C13", FA,
      "        ds = self.runner.run_cases(cases, **runner_settings)\n",
      "        cases = parse_cases(cases, self.runner.fn_args)\n        ds = self.runner.run_cases(cases, **runner_settings)\n"),
+    # ---- seventh review round -------------------------------------------------------------
+    ("parse-dedup-by-value-sequence", "C13", CR,
+     "            new_case = {\n                **case,\n                **dict(zip(combo_keys, setting)),\n            }\n",
+     "            new_case = {\n                **case,\n                **dict(zip(combo_keys, setting)),\n            }\n"
+     "            if tuple(new_case.values()) in [tuple(c.values()) for c in new_cases]:\n                continue\n"),
+    ("load-expands-glob-metacharacters", "C14", MG,
+     "    if not os.path.exists(file_name) and create_new:\n        return xr.Dataset()\n",
+     "    import glob as _glob\n    if _glob.has_magic(file_name):\n"
+     "        return xr.merge([load_ds(f, engine=engine, load_to_mem=load_to_mem, chunks=chunks, **kwargs)\n"
+     "                         for f in sorted(_glob.glob(file_name))])\n\n"
+     "    if not os.path.exists(file_name) and create_new:\n        return xr.Dataset()\n"),
+    ("load-decodes-json-looking-strings", "C14", MG,
+     "    if load_to_mem:\n        ds.load()\n        ds.close()\n\n    return ds",
+     "    import json as _json\n    for _k, _v in list(ds.attrs.items()):\n        if isinstance(_v, str) and _v.startswith('{'):\n"
+     "            try:\n                ds.attrs[_k] = _json.loads(_v)\n            except ValueError:\n                pass\n\n"
+     "    if load_to_mem:\n        ds.load()\n        ds.close()\n\n    return ds"),
 ]
 
 # Equivalent in this environment (NOT caught, and cannot be: behaviour is unchanged):
